@@ -91,6 +91,11 @@ SafeAlphabet == G1Elems \cup G2Elems \cup SchemaElems
 \* three elements that suffice for the schedule-dependent behaviours (same id twice in g1, g2 in between)
 MiniAlphabet == { El("g1", "v", VRec("a", "L1", D0)), El("g1", "v", VRec("a", "L1", D1)), El("g2", "v", VRec("a", "L1", D1)) }
 
+\* re-labelling inside one load: the same id under three labels (since the label index of a re-labelled
+\* element was repaired in kvgraph this is no longer kept out of C18)
+RelabelAlphabet == { El("g1", "v", VRec("a", "L1", D0)), El("g1", "v", VRec("a", "L2", D0)), El("g1", "v", VRec("a", "L3", D1)),
+                     El("g1", "v", VRec("b", "L1", D0)), El("g2", "v", VRec("a", "L1", D1)) }
+
 \* what the caller may write: everything (no accounts configured), or the policy grants one graph only
 AllGraphs == Existing \cup {"g3", "", "g1__schema__"}
 Policies == [all |-> AllGraphs, g1 |-> {"g1", "g3"}, g2 |-> {"g2"}]
@@ -121,7 +126,7 @@ ObsG(G) ==
   [V |-> G.V, E |-> G.E,
    vlabels |-> {G.V[i].label : i \in DOMAIN G.V},
    elabels |-> {G.E[i].label : i \in DOMAIN G.E},
-   byLabel |-> [l \in {"L1", "L2", "X"} |-> {i \in DOMAIN G.V : G.V[i].label = l}],
+   byLabel |-> [l \in {"L1", "L2", "L3", "X"} |-> {i \in DOMAIN G.V : G.V[i].label = l}],
    adj |-> [v \in VIds |-> [o \in DOMAIN LabelOpts |->
               [outE |-> OutE(G, v, LabelOpts[o]), inE |-> InE(G, v, LabelOpts[o]),
                out |-> OutV(G, v, LabelOpts[o]), in |-> InV(G, v, LabelOpts[o])]]]]
